@@ -400,7 +400,11 @@ func (e *Engine) loadContracts(dir string, pkg *types.Package) error {
 			if err != nil {
 				return err
 			}
-			e.chans[pn+"."+c.Label] = &ChanDecl{Name: c.Label, Inv: c, Pkg: pkg}
+			key := pn + "." + c.Label
+			if cur != nil {
+				key = cur.Name + "/" + c.Label
+			}
+			e.chans[key] = &ChanDecl{Name: c.Label, Inv: c, Pkg: pkg}
 		case "note":
 		default:
 			return fmt.Errorf("%s:%d: unknown directive %q", path, d.line, kw)
